@@ -205,7 +205,7 @@ func runC13With(c c13Case, st *hx.Stats, readTimeout time.Duration) (*c13Result,
 	base := &hx.LedgerFs{Fs: afero.NewBasePathFs(afero.NewOsFs(), root), L: led}
 	g0 := runtime.NumGoroutine()
 	opts := hx.InprocOpts{AllowWrite: sc.AllowWrite}
-	if c.Ending == "timeout" {
+	if c.Ending == "timeout" || c.Ending == "stalled" {
 		opts.ReadTimeout = readTimeout
 	}
 	tg, err := hx.StartInprocFs(base, opts)
@@ -233,7 +233,11 @@ func runC13With(c c13Case, st *hx.Stats, readTimeout time.Duration) (*c13Result,
 			}
 			return nil
 		}
-		return c13ObjFor(clean, led.HasFired())
+		// only a lookup that was told "no such file" may legitimately fall through to another key source or to the
+		// raw content; any other failure of the key lookup (I/O error, no permission, too many open files) must fail
+		// the open or end the connection, never serve the stored ciphertext as if there were no key
+		absent := led.HasFired() && (c.Mode == "fail-op" || c.Mode == "pair") && syscall.Errno(c.Errno) == syscall.ENOENT
+		return c13ObjFor(clean, absent)
 	}
 	m.OpenMayFail = func(clean string) bool { return pristine[clean] && c13Touched(c, clean) }
 	reqs := sc.Reqs
@@ -273,6 +277,19 @@ func runC13With(c c13Case, st *hx.Stats, readTimeout time.Duration) (*c13Result,
 			_ = conn.Send(hx.Req{Op: "UNKNOWN", N: 0x1233}.Encode())
 			if _, closed, _ := conn.ReadToEnd(64); !closed {
 				runErr = hx.Failf("ends-connection", "unknown opcode did not end the connection")
+			}
+		case "stalled":
+			// part of a request arrives (for uploads: the command and a part of its payload), then nothing more and
+			// no close: the server's idle limit has to end this
+			full := hx.Req{Op: "WRITE", N: 3000, Seed: 3}.Encode()
+			if c.K%2 == 1 {
+				full = hx.Req{Op: "OPEN_FILE", Path: "/plain.bin"}.Encode()
+			}
+			_ = conn.Send(full[:1+(c.K*37)%(len(full)-1)])
+			t0 := time.Now()
+			data, closed, err := conn.ReadToEnd(64)
+			if err != nil || !closed || len(data) > 0 {
+				runErr = hx.Failf("idle-cut", "connection stalled inside a request with a short read timeout: closed=%v err=%v bytes=%d after %v", closed, err, len(data), time.Since(t0))
 			}
 		case "timeout":
 			t0 := time.Now()
@@ -339,7 +356,7 @@ func orDefault(s, d string) string {
 
 func runC13(c c13Case, st *hx.Stats) error {
 	res, err := runC13Once(c, st)
-	if _, isFail := err.(*hx.Fail); isFail && c.Ending == "timeout" {
+	if _, isFail := err.(*hx.Fail); isFail && (c.Ending == "timeout" || c.Ending == "stalled") {
 		// the server cuts this connection after 150 ms of silence: on a busy machine a request may simply have been
 		// late. Nothing judged here depends on the length of that limit, so the case is decided with a 3 s limit.
 		res, err = runC13With(c, nil, 3*time.Second)
@@ -414,8 +431,8 @@ func TestC13Enum(t *testing.T) {
 				}
 			}
 			for p := 0; p <= len(sc.Reqs); p++ {
-				for _, e := range []string{"halfclose", "close", "rst", "truncated", "unknown", "timeout"} {
-					if e == "timeout" && p%3 != 0 {
+				for _, e := range []string{"halfclose", "close", "rst", "truncated", "unknown", "timeout", "stalled"} {
+					if (e == "timeout" || e == "stalled") && p%3 != 0 {
 						continue // each costs the timeout; every third point
 					}
 					if !yield(c13Case{Scenario: sc.Name, Mode: "ending", K: p, K2: -1, Ending: e}) {
